@@ -16,13 +16,24 @@ import (
 // substantial probability whenever the dependent branch runs.
 func TestC09_Replicas(t *testing.T) {
 	rec := recorder("C09")
-	rec.AddRule("rapid state machine over shuttermint call histories (apphist generator: 1-5 genesis keypers, all thresholds, votes on pooled candidate configurations, DKG result votes, check-ins, block-seen, DKG messages, replays, garbage, CheckTx interleaved) executed on 4 replicas; non-trivial = history in which some tally had two values at or over the threshold when consulted (order-sensitive decision exercised) or a configuration was accepted after a vote split; distinct by canonical history string")
+	rec.AddRule("rapid state machine over shuttermint call histories (apphist generator: 1-5 genesis keypers, all thresholds, votes on pooled candidate configurations, DKG result votes, check-ins, block-seen, DKG messages, replays, garbage, CheckTx interleaved) executed on 4 replicas, in half of the cases with state files and a different save schedule per replica; non-trivial = history in which some tally had two values at or over the threshold when consulted (order-sensitive decision exercised) or a configuration was accepted after a vote split; distinct by canonical history string")
 	rec.Assume("Go's per-range map iteration randomisation samples iteration orders; orders are not enumerated")
 	steps := 40
+	persistDir := t.TempDir()
 	runRapid(t, N(1200, 200000), func(rt *rapid.T) {
 		g := genGenesis(rt)
 		c := NewChain(g, 4, func(sig, f string, a ...any) { fatalf(rt, sig, f, a...) })
 		c.CheckReplicas = true
+		persisting := rapid.Bool().Draw(rt, "persisting")
+		if persisting {
+			// replicas that save their state, each on its own schedule (a wall-clock timer in a real node)
+			var plans []persistPlan
+			for i := range c.Reps {
+				per := int64(rapid.IntRange(1, 4).Draw(rt, fmt.Sprintf("savePeriod%d", i)))
+				plans = append(plans, persistPlan{Period: per, Phase: int64(rapid.IntRange(0, int(per)-1).Draw(rt, fmt.Sprintf("savePhase%d", i)))})
+			}
+			c.EnablePersistence(persistDir, plans)
+		}
 		n := rapid.IntRange(5, steps).Draw(rt, "len")
 		for i := 0; i < n; i++ {
 			c.Step(rt)
@@ -41,6 +52,9 @@ func TestC09_Replicas(t *testing.T) {
 		}
 		if c.NonEmptyUpdates > 0 {
 			labels = append(labels, "validator-update")
+		}
+		if persisting {
+			labels = append(labels, "replicas-save-on-different-schedules")
 		}
 		rec.Case(c.DescString(), nt, labels...)
 		rec.LabelN("order-sensitive-decisions", c.M.SplitTally)
